@@ -54,7 +54,7 @@ reg("static-ssse3", F(*BASE, "f-opt-default", "f-simd"), rustflags="-C target-fe
 reg("static-sse41", F(*BASE, "f-opt-default", "f-simd"), rustflags="-C target-feature=+sse4.1", flags=[15, 16, 18, 19, 21, 33])
 reg("static-avx2", F(*BASE, "f-opt-default", "f-simd"), rustflags="-C target-feature=+avx2", flags=[15, 16, 18, 19, 21, 34])
 reg("unsafe-debug", F("tlsh-default", "f-unsafe"), flags=[2, 15, 16, 18, 19, 21, 34])
-CFG_QUICK = ["default", "nosimd", "lowmem", "static-sse2"]
+CFG_QUICK = ["default", "nosimd", "embedded", "lowmem", "decq", "decmin", "static-sse2"]
 CFG_ALL = ["default", "nosimd", "embedded", "lowmem", "decq", "decmin", "static-sse2", "static-ssse3", "static-sse41",
            "static-avx2", "unsafe-debug", "unsafe-release", "release"]
 
